@@ -176,7 +176,18 @@ def make_interface(prop):
             reader = sig[2].split(".")[-1] + ">" + reader  # e.g. cat_rows>root_decomposition
         elif sig[1].startswith("derive"):
             reader = "derive:" + sig[3]
-        pairs = sorted({f"{reader}<-{c['name'].split('(')[0]}" for c in culprits}) or [f"{reader}<-none"]
+        reader_q = sig[3].split("[")[0]
+
+        def _pair_name(cname):
+            # a culprit entry stored under an explicit (non-default) argument key and read by a *different* query is marked
+            # "[k]": on the unchanged tree other queries only ever look at argument-less keys (c12-s18: sampling with whatever
+            # root_decomposition(method=...) entry happens to exist)
+            base = cname.split("(")[0]
+            argstr = cname[len(base) + 1:-1] if "(" in cname and cname.endswith(")") else ""
+            items = [a_ for a_ in argstr.split(",") if a_ and not a_.endswith("=None")]
+            return base + ("[k]" if items and base != reader_q and not base.startswith("@") else "")
+
+        pairs = sorted({f"{reader}<-{_pair_name(c['name'])}" for c in culprits}) or [f"{reader}<-none"]
         return {"culprits": sorted({f"{c['obj']}{c['path']}:{c['name']}" for c in culprits}),
                 "reader_pairs": pairs,
                 "classes_in_scenario": r.get("classes", []),
